@@ -176,10 +176,13 @@ Expect dur_reference(const DurFields& f, i128 num, i128 den, i128 lo, i128 hi, b
 	auto part = [&](const DurPart& p, bool datePart) {
 		i128 unitSec;
 		if (p.v > static_cast<i128>(UINT64_MAX) || (neg && p.v > (static_cast<i128>(1) << 63))) range = true;   // reported before the unit is looked at
-		if (datePart) { if (p.unit == 'W') unitSec = 604800; else if (p.unit == 'D') unitSec = 86400; else { bad = true; return; } }
-		else { if (p.unit == 'H') unitSec = 3600; else if (p.unit == 'M') unitSec = 60; else if (p.unit == 'S') unitSec = 1; else { bad = true; return; } }
+		// a part with a wrong or missing designator makes the text ungrammatical; the parser may nevertheless have accumulated the number (and its
+		// fraction) before it looks for the designator, so an overflow caused by that part may be what gets reported: evaluate it as seconds / days too
+		bool wrongUnit = false;
+		if (datePart) { if (p.unit == 'W') unitSec = 604800; else if (p.unit == 'D') unitSec = 86400; else { bad = true; wrongUnit = true; unitSec = 86400; } }
+		else { if (p.unit == 'H') unitSec = 3600; else if (p.unit == 'M') unitSec = 60; else if (p.unit == 'S') unitSec = 1; else { bad = true; wrongUnit = true; unitSec = 1; } }
 		if (!p.frac.empty()) {
-			if (p.unit != 'S' || p.frac.size() > 9) { bad = true; if (p.frac.size() > 9) eitherBad = true; return; }
+			if ((p.unit != 'S' && !wrongUnit) || p.frac.size() > 9) { bad = true; if (p.frac.size() > 9) eitherBad = true; return; }
 			i128 ns = 0; std::string q = p.frac; while (q.size() < 9) q.push_back('0'); for (char ch : q) ns = ns * 10 + (ch - '0');
 			if (neg) ns = -ns;
 			// the fraction is rounded to the target unit on its own (nearest; either neighbour on a tie)
